@@ -9,7 +9,9 @@ PAIRS = {'C01-m1': ['C01'], 'C01-m2': ['C01', 'C20'], 'C02-m1': ['C02'], 'C02-m2
          'C16-m1': ['C16'], 'C16-m2': ['C16'], 'C18-m1': ['C18'], 'C18-m2': ['C18'], 'C19-m1': ['C19', 'C14'], 'C19-m2': ['C19'], 'C20-m1': ['C20'], 'C20-m2': ['C20'],
          'C02-m3': ['C02'], 'C02-m4': ['C02', 'C01'], 'C03-m3': ['C03'], 'C03-m4': ['C03'], 'C04-m3': ['C04'], 'C04-m4': ['C04'], 'C08-m3': ['C08'], 'C08-m4': ['C08'],
          'C13-m3': ['C13', 'C15'], 'C13-m4': ['C13', 'C15', 'C14'], 'C15-m3': ['C15', 'C14'], 'C15-m4': ['C15'], 'C19-m3': ['C19', 'C14'], 'C19-m4': ['C19', 'C20'],
-         'C01-m3': ['C01'], 'C01-m4': ['C01']}
+         'C01-m3': ['C01'], 'C01-m4': ['C01'],
+         'C05-m3': ['C05'], 'C05-m4': ['C05'], 'C09-m3': ['C09', 'C05'], 'C09-m4': ['C09'], 'C14-m3': ['C14', 'C20'], 'C14-m4': ['C14', 'C13', 'C15'], 'C18-m3': ['C18'], 'C18-m4': ['C18', 'C05'],
+         'C10-m3': ['C10'], 'C10-m4': ['C10'], 'C12-m3': ['C12'], 'C12-m4': ['C12'], 'C16-m3': ['C16'], 'C16-m4': ['C16'], 'C20-m3': ['C20'], 'C20-m4': ['C20'], 'C17-m1': ['C17'], 'C17-m2': ['C17']}
 only = sys.argv[1:]
 for mid, checks in PAIRS.items():
     if only and mid not in only:
